@@ -92,20 +92,11 @@ def rule_link_no_drop(rep):
             )
         t = unparse(f.node)
         r.check(
-            "shifted_head = self._active_heads.get(to_state.state_id, None)" in t
-            and "parent = next(iter(shifted_head.parents.values())).clone_with_root(head)" in t,
-            "a token already shifted into the target state is shared: the new link is a clone rooted at this head",
+            "shifted_head = self._active_heads.get(to_state.state_id, None)" in t,
+            "one shifted head per target state: a second head shifting into the state links to the existing one",
             "GLRParser._do_shifts:share",
             "_do_shifts no longer shares the shifted head per target state",
             node=f.node,
-        )
-        cl = repo.func("parglare.glr.Parent.clone_with_root")
-        r.check(
-            "return Parent(self.head, root, self.start_position, self.end_position, list(self.possibilities), token=self.token)" in unparse(cl.node),
-            "the clone keeps head, span, alternatives and token, with the new root",
-            "Parent.clone_with_root",
-            "Parent.clone_with_root changed",
-            node=cl.node,
         )
         cr = repo.func("parglare.glr.GSSNode.create_link")
         t = unparse(cr.node)
